@@ -349,7 +349,13 @@ func (e *Env) sentinelProvenance() {
 	e.sentinelFacts()
 	// provenance of every returned error in the metric packages
 	errsPkg := "github.com/goark/errs"
-	for _, rel := range []string{"v3/metric", "v2/metric"} {
+	rels := []string{"v3/metric", "v2/metric"}
+	for _, rel := range e.P.LibRels() {
+		if load.IsInternal(load.ModPath + "/" + rel) {
+			rels = append(rels, rel) // code the metric packages share: its errors are theirs
+		}
+	}
+	for _, rel := range rels {
 		for _, fn := range e.F.Effects().All {
 			if fn.Pkg == nil || fn.Pkg.Pkg.Path() != load.ModPath+"/"+rel || fn.Synthetic != "" {
 				continue
@@ -451,7 +457,7 @@ func (e *Env) singleSentinelSeen(bld *ir.Builder, v ssa.Value, depth int, seen m
 			return true
 		}
 		seen[x] = true
-		if fn == nil || fn.Object() == nil || fn.Object().Exported() {
+		if fn == nil || fn.Object() == nil || (fn.Object().Exported() && !(fn.Pkg != nil && load.IsInternal(fn.Pkg.Pkg.Path()))) {
 			return false
 		}
 		ci := e.callersOf(fn)
@@ -523,7 +529,9 @@ func (e *Env) moduleErrorSource(call *ssa.Call) bool {
 	if callee == nil {
 		return e.handedErrorSource(call)
 	}
-	return callee != nil && callee.Pkg != nil && (callee.Pkg.Pkg.Path() == load.ModPath+"/v3/metric" || callee.Pkg.Pkg.Path() == load.ModPath+"/v2/metric")
+	// (an instance of a generic function of these packages is that function)
+	pk := ir.FuncPackage(callee)
+	return pk != nil && (pk.Pkg.Path() == load.ModPath+"/v3/metric" || pk.Pkg.Path() == load.ModPath+"/v2/metric" || load.IsInternal(pk.Pkg.Path()))
 }
 
 // handedErrorSource: the call goes through a function value an unexported helper is handed; it is an error source
@@ -536,7 +544,7 @@ func (e *Env) handedErrorSource(x *ssa.Call) bool {
 		return false
 	}
 	fn := pv.Parent()
-	if fn == nil || fn.Object() == nil || fn.Object().Exported() {
+	if fn == nil || fn.Object() == nil || (fn.Object().Exported() && !(fn.Pkg != nil && load.IsInternal(fn.Pkg.Pkg.Path()))) {
 		return false
 	}
 	ci := e.callersOf(fn)
@@ -968,7 +976,7 @@ func (e *Env) boundsRules() {
 					continue
 				}
 				xt := bld.Term(x)
-				split := isCallOf(xt, "strings.Split") && len(xt.Args) == 2 && xt.Args[1].Op == ir.OConst && xt.Args[1].C != nil && !isStringConst(xt.Args[1], "")
+				split := isSplitCall(xt) || e.returnsSplit(xt)
 				kc, isConst := index.(*ssa.Const)
 				if isConst {
 					k := kc.Int64()
@@ -1588,6 +1596,33 @@ func nonNegative(v ssa.Value, depth int) bool {
 		return true
 	}
 	return false
+}
+
+// isSplitCall: strings.Split(x, sep) with a non-empty constant separator (at least one element).
+func isSplitCall(xt *ir.Term) bool {
+	return isCallOf(xt, "strings.Split") && len(xt.Args) == 2 && xt.Args[1].Op == ir.OConst && xt.Args[1].C != nil && !isStringConst(xt.Args[1], "")
+}
+
+// returnsSplit: xt is the call of a library helper with one result that is, on every path, such a strings.Split.
+func (e *Env) returnsSplit(xt *ir.Term) bool {
+	fn, _ := xt.Obj.(*types.Func)
+	if xt.Op != ir.OCall || fn == nil || fn.Pkg() == nil || !load.IsLib(fn.Pkg().Path()) {
+		return false
+	}
+	sf := e.P.SSAFunc(fn)
+	if sf == nil || len(sf.Blocks) == 0 || sf.Signature.Results().Len() != 1 {
+		return false
+	}
+	leaves, err := ir.Leaves(sf, ir.LeafOptions{Inline: e.inlineHelpers()})
+	if err != nil || len(leaves) == 0 {
+		return false
+	}
+	for _, lf := range leaves {
+		if len(lf.Ret) != 1 || !isSplitCall(lf.Ret[0]) {
+			return false
+		}
+	}
+	return true
 }
 
 // lengthByHelper: x is result #i of a call of a module function that also returns an error; the access is
